@@ -15,7 +15,7 @@ func init() {
 		Explanation: "The whole property (output equality over an unbounded family of programs) is not statically decidable here: it depends on the indexes, levels and successor edges that cfg computes per program. Six mechanism clauses that are necessary for it are decided: " +
 			"R01.1 the node kinds that push a scope in cfg's pre-order callback are those that pop one in the post-order callback (fileStmt excepted, paired with initScopePkg); R01.2 every closure generated for a short variable declaration allocates a fresh slot (reflect.New) before storing; " +
 			"R01.3 the three per-iteration loop-variable generators allocate, copy and install a new variable, and cfg installs them under conditions that depend only on the loop header; R01.4 the AST copier used to instantiate generics copies every field the AST builder sets; " +
-			"R01.5 every operator generator uses its action's Go operator (shared with C02/R02.2); R01.6 a multiple assignment evaluates all its sources into fresh temporaries before any destination is written. CFG wiring, the skip-assign optimisations and value semantics - the property's main content - are NOT decided.",
+			"R01.5 every operator generator uses its action's Go operator (shared with C02/R02.2); R01.6 a multiple assignment evaluates all its sources into fresh temporaries before any destination is written; R01.7 a return with several operands evaluates them all before it sets any result wherever results can be named; R01.8 a run-time closure that stores its node's result stores it on every path that continues (no stale slot); R01.9 both forms of range over a string yield byte offsets; R01.10 a blank range value is never stored; R01.11 the 'i := i' loop-variable shortcut tests its source operand. CFG wiring, the skip-assign optimisations and value semantics - the property's main content - are NOT decided.",
 		Assumptions: []string{"closures and frame slots behave as reflect documents", "only the listed mechanisms are decided"},
 		Run:         runC01,
 	})
